@@ -29,6 +29,8 @@ import (
 type hScenario struct {
 	js       []byte
 	mappings []byte
+	asset    bool // the chunk references a file-loader asset through a placeholder
+	assetCh  byte // one byte of the asset's final (hashed) file name
 	srcByte  byte // one byte of the "sources" array (in the Prefix piece)
 	nameByte byte // one byte of the "names" array (in the Suffix piece)
 	hasMap   bool
@@ -110,6 +112,11 @@ func hStubGenerateChunkJS(c *linkerContext, chunkIndex int, chunkWaitGroup *sync
 	chunk := &c.chunks[chunkIndex]
 	var j helpers.Joiner
 	j.AddBytes(hScen.js)
+	if hScen.asset {
+		j.AddBytes([]byte("y=\""))
+		j.AddBytes(append(append([]byte{}, hPrefix...), []byte("A00000001")...))
+		j.AddBytes([]byte("\";\n"))
+	}
 	chunk.intermediateOutput = c.breakJoinerIntoPieces(j)
 	if hScen.hasMap {
 		chunk.outputSourceMap = sourcemap.SourceMapPieces{
@@ -150,6 +157,11 @@ func hMkBuild(free int) hBuild {
 		vAssume(s0 >= 'a' && s0 <= 'z' && n0 >= 'a' && n0 <= 'z')
 		b.scen.srcByte, b.scen.nameByte = s0, n0
 	}
+	if vParam("ASSET", 0) != 0 && vBool() {
+		a0 := vU8()
+		vAssume(a0 >= 'a' && a0 <= 'z')
+		b.scen.asset, b.scen.assetCh = true, a0
+	}
 	if b.legalMode != 0 {
 		l0 := vU8()
 		vAssume(l0 >= 'a' && l0 <= 'z')
@@ -159,8 +171,13 @@ func hMkBuild(free int) hBuild {
 }
 
 func hRunBuild(b *hBuild) []graph.OutputFile {
-	c := hCtx(1, 1)
+	c := hCtx(1, 2)
 	c.fs = fs.MockFS(map[string]string{}, fs.MockUnix, "/")
+	if b.scen.asset {
+		// the asset's final name carries the hash of its bytes
+		c.graph.Files[1].InputFile.AdditionalFiles = []graph.OutputFile{{AbsPath: "/out/img-" + string([]byte{b.scen.assetCh}) + ".png"}}
+		c.graph.Files[1].InputFile.UniqueKeyForAdditionalFile = string(hPrefix) + "A00000001"
+	}
 	c.options.AbsOutputDir = "/out"
 	c.options.SourceMap = hSMModes[b.smMode]
 	c.options.LegalComments = hLegalModes[b.legalMode]
